@@ -31,6 +31,8 @@ struct PropDef {
   void (*run_case)(Src&, Ctx&);
   void (*sweep)(Ctx&, uint64_t shard, uint64_t nshards);  // may be null
   void (*witness)(const std::string& name, Ctx&);         // may be null
+  // re-execute a case given as raw bytes (sweep failures carry an "I <hex>" line); may be null
+  void (*replay_input)(const std::string& bytes, Ctx&) = nullptr;
 };
 
 static const size_t RECORD_CAP = 1u << 18;  // draws
@@ -101,10 +103,15 @@ inline void write_counters(const Ctx& ctx, const std::string& prefix, const char
   }
 }
 
+inline std::string& failing_input() {
+  static std::string s;
+  return s;
+}
 inline void write_cs(const std::string& path, const char* id, const std::vector<Draw>& draws,
                      const std::string& kind, const std::string& message,
                      const std::string& rendering, const std::string& config) {
   std::ofstream o(path);
+  if (!failing_input().empty() && draws.empty()) o << "I " << hex_bytes(failing_input(), 1u << 22) << "\n";
   o << "# property " << id << "\n";
   o << "# config " << config << "\n";
   o << "# kind " << kind << "\n";
@@ -382,6 +389,24 @@ inline int runner_main(const PropDef& prop, int argc, char** argv) {
     if (pos.empty() || !read_cs(pos[0], draws)) {
       fprintf(stderr, "cannot read replay file\n");
       return 2;
+    }
+    if (draws.empty() && prop.replay_input) {
+      std::ifstream in(pos[0]);
+      std::string line;
+      while (std::getline(in, line)) {
+        if (line.rfind("I ", 0) != 0) continue;
+        std::string bytes;
+        for (size_t i = 2; i + 1 < line.size(); i += 2) bytes += (char)strtol(line.substr(i, 2).c_str(), nullptr, 16);
+        try {
+          prop.replay_input(bytes, ctx);
+        } catch (Failure& f) {
+          printf("REPLAY %s: FAIL kind=%s\n%s\n--- case ---\n%s\n", prop.id, f.kind.c_str(), f.message.c_str(),
+                 ctx.current_rendering.c_str());
+          return 42;
+        }
+        printf("REPLAY %s: pass (input case)\n", prop.id);
+        return 0;
+      }
     }
     Src src;
     Record* rec = anon_record();
